@@ -1170,7 +1170,7 @@ def _run(ctx, P, yaml, GridCase):
     corpus = load_corpus()
     confs = [(c['config'], c.get('queries'), c.get('params', {})) for c in corpus]
     ncorpus = len(confs)
-    for k in range(ctx.n(28, 200)):
+    for k in range(ctx.n(28, 150)):
         confs.append((gen_config(ctx, info, k), None, None))
     nq_w = ctx.n(14, 24)
     nq_t = ctx.n(14, 24)
